@@ -37,6 +37,14 @@ macro "de_close" m:num rule:ident S:ident d:ident hd:ident : tactic =>
     revert hr; revert r; revert $hd; revert $d
     decide +kernel))
 
+/-- `int(account_code)` of ten digit characters is the number they spell. -/
+theorem pyIntStr_acct {U : Unicode} (hU : U.WF) (d1 d2 d3 d4 d5 d6 d7 d8 d9 d10 : Nat)
+    (h1 : d1 < 10) (h2 : d2 < 10) (h3 : d3 < 10) (h4 : d4 < 10) (h5 : d5 < 10) (h6 : d6 < 10)
+    (h7 : d7 < 10) (h8 : d8 < 10) (h9 : d9 < 10) (h10 : d10 < 10) :
+    pyIntStr U [48 + d1, 48 + d2, 48 + d3, 48 + d4, 48 + d5, 48 + d6, 48 + d7, 48 + d8, 48 + d9, 48 + d10] 0 false =
+      .ok (num [d1, d2, d3, d4, d5, d6, d7, d8, d9, d10] 0) := by
+  simp [pyIntStr, num, intChar_ascii hU, h1, h2, h3, h4, h5, h6, h7, h8, h9, h10]
+
 /-- As `de_close`, for goals that additionally depend on a second digit. -/
 macro "de_close2" m:num rule:ident S:ident d:ident hd:ident d':ident hd':ident : tactic =>
   `(tactic| (
